@@ -17,8 +17,8 @@ The *quick* table is the same for every seed (so that a replay never depends on 
     and mdarray suites).  About 155 types: one full type costs ~3-4 s of compile time with ASan+UBSan.
 The *thorough* table adds a seeded sample of 300 further types (rank 1..4, static values 0..4, any index type).
 Types whose static extents alone are not representable (std: Mandates) are never emitted.
-Every type named by a saved case (replay/C19, violations/C19, known_findings.json) is added to every part, so a replay
-of a case found with another seed or tier always finds its instantiation.
+Every type named by a saved case (replay/C19, violations/C19, known_findings.json probes) of harness C19_mdspan_<K> is
+added to part K with the full suite, so a replay of a case found with another seed or tier always finds its instantiation.
 Python 3 standard library only; deterministic in (seed, tier, part, nparts, saved cases).
 """
 import argparse
@@ -137,14 +137,16 @@ def parse_name(s):
     return (m.group(1), pat)
 
 
-def saved_case_types():
+def saved_case_types(part):
+    """types named by saved cases whose harness is this part (C19_mdspan_<part>)"""
+    mine = "C19_mdspan_%d" % part
     cases = []
     for d in ("replay", "violations"):
         for p in sorted(glob.glob(os.path.join(VERIF, d, "C19", "*.json"))):
             try:
                 with open(p) as f:
                     j = json.load(f)
-                if str(j.get("harness", "")).startswith("C19_mdspan"):
+                if str(j.get("harness", "")) == mine:
                     cases.append(str(j.get("case", "")))
             except Exception:
                 pass
@@ -152,7 +154,7 @@ def saved_case_types():
         with open(os.path.join(VERIF, "known_findings.json")) as f:
             for kf in json.load(f).get("findings", []):
                 pr = kf.get("probe", {})
-                if isinstance(pr, dict) and str(pr.get("harness", "")).startswith("C19_mdspan"):
+                if isinstance(pr, dict) and str(pr.get("harness", "")) == mine:
                     cases.append(str(pr.get("case", "")))
     except Exception:
         pass
@@ -181,7 +183,7 @@ def main():
     # full types first, then light ones, each round-robin over the parts: every part gets the same mix of cost
     order = [t for t in types if t[2]] + [t for t in types if not t[2]]
     mine = [t for i, t in enumerate(order) if i % a.nparts == a.part]
-    for it, pat in saved_case_types():
+    for it, pat in saved_case_types(a.part):
         mine = [t for t in mine if not (t[0] == it and t[1] == pat)] + [(it, pat, True)]
     lines = ["// generated by gen/C19_gen.py --part %d --nparts %d --seed %d --tier %s : %d types (of %d)" % (a.part, a.nparts, a.seed, a.tier, len(mine), len(types))]
     for it, pat, full in mine:
